@@ -119,8 +119,9 @@ def run_standard(prop, tier, gens, case_of, trace, key_of, corruptors, init_name
             V.note('%d failing events in total; first %d reported' % (res['nbad'], len(res['bad'])))
         for eid in res['drift'][:5]:
             V.note('mechanism-drift: event %s' % json.dumps({k: v for k, v in cases[eid].items() if k != 'c'}, ensure_ascii=False)[:300])
+        extra_cov = {}
         if post:
-            post(work, V, cases, obs)
+            extra_cov = post(work, V, cases, obs) or {}
         rc = V.finish()
         nt = nontrivial or (lambda c, o: bool(o.get('ents')))
         cov = {
@@ -141,6 +142,11 @@ def run_standard(prop, tier, gens, case_of, trace, key_of, corruptors, init_name
             'known_findings_hit': sorted(V.known_hits),
             'failing_events': res['nbad'],
         }
+        for k, v in extra_cov.items():
+            if k in ('states', 'transitions', 'traces_validated_against_impl', 'evaluations') and isinstance(v, int):
+                cov[k] += v
+            else:
+                cov[k] = v
         common.write_evidence(prop, tier, level, cov, time.time() - t0, len(V.new), assumptions)
         return rc
     finally:
